@@ -954,6 +954,11 @@ def sig_C08(ins, outs, extra=""):
         churn = bool(kinds) and set(kinds) <= {3, 4, 5, 6}
         if churn and c.get("rdma") and c.get("fr", 0) > 0:
             return "C08:fixed-point:erdma-node:idle-address-of-the-RDMA-interface-counts-for-the-max-band-but-not-for-the-min-refill"
+        # the same churn in its heavier form: when the interface that would take the refill is full (it still holds the address
+        # marked for deletion in the round before) the refill creates a whole interface, which the trim then gives up again:
+        # create + attach in one round, detach + delete in the next, forever (min within one of max)
+        if kinds and set(kinds) <= {1, 2, 3, 4, 5, 6, 7, 8} and c.get("rdma") and c.get("fr", 0) > 0 and c.get("max", 0) <= c.get("min", 0) + 1 and c.get("min", 0) >= 1:
+            return "C08:fixed-point:erdma-node:idle-address-of-the-RDMA-interface-counts-for-the-max-band-but-not-for-the-min-refill"
         if churn and c.get("on4") and c.get("on6") and set(kinds) <= {4, 6}:
             return "C08:fixed-point:dual-stack:idle-primary-IPv4-addresses-count-for-the-max-band-and-trim-the-IPv6-refill"
         if churn:
